@@ -283,6 +283,27 @@ func runC12(c *Ctx) {
 		r.Check("R12.5", "tabular.ATable", "no address of a columns element escapes; elements are pointers", cols.Pos(), isPtr, fmt.Sprintf("%d element accesses examined", nuse))
 	}
 	r.Floor("R12.5", "accesses to elements of ATable.columns", nuse, 3)
+	// the list of column pointers is only ever extended: a growth step stores append(<the table's current list>, ...)
+	// so every column already handed out stays the table's column
+	for _, fs := range c.StoresTo(cols) {
+		if fs.Fresh {
+			continue
+		}
+		keeps := false
+		v := fs.St.Val
+		for depth := 0; depth < 6 && !keeps; depth++ {
+			base, _, ok := appendedElems(v)
+			if !ok {
+				break
+			}
+			if f, b := loadedField(base); f == cols && b == fs.Base {
+				keeps = true
+			}
+			v = base
+		}
+		r.Check("R12.5", FuncName(fs.Fn), "growth extends the table's own list of column pointers (append to the current list), keeping every existing column", fs.St.Pos(), keeps,
+			"the list is rebuilt: columns are re-created or copied, and handles obtained earlier no longer address the table's columns")
+	}
 	// premise: growth keeps every existing column where it was (the count/slice bookkeeping of C02's R02.3)
 	importPremises(c, "R12.5", "column-bookkeeping premise ", "a growth step that loses or shifts a slot replaces a column by a fresh one: its properties vanish and earlier handles go stale", func(o *Ob) bool {
 		return o.Rule == "R02.3" && (strings.Contains(o.Construct, "olumn") || strings.Contains(o.Func, "resize"))
@@ -305,8 +326,9 @@ func c12Strip(c *Ctx, strip *ssa.Function, chain, key, val *types.Var) {
 			}
 		}
 	})
+	c12StripRebuilds(c, strip)
 	if top == nil {
-		r.Note("shape-unrecognised R12.2: strip does not start with a comma-ok assertion of its chain argument")
+		r.Note("shape-unrecognised R12.2: strip does not start with a comma-ok assertion of its chain argument; only R12.1, the rebuilding rule and the SetProperty wiring are evaluated")
 		return
 	}
 	isTopField := func(v ssa.Value, f *types.Var) bool {
@@ -404,4 +426,45 @@ func c12Strip(c *Ctx, strip *ssa.Function, chain, key, val *types.Var) {
 		r.Check("R12.2", name, fmt.Sprintf("return #%d", i+1), ret.Pos(), ok, why)
 	}
 	r.Floor("R12.2", "returns of the strip function", nret, 4)
+}
+
+// c12StripRebuilds: removing a key from below the top of a chain must re-create EVERY link above it (links are
+// immutable, so none can be re-pointed). However strip is written, a result chain whose head is a link allocated
+// by strip itself can carry all of those links only if the allocation can happen an unbounded number of times:
+// strip is recursive (one link per level on the way back up) or the allocation sits inside a loop. A single
+// allocation on a straight path rebuilds one link and silently drops the others.
+func c12StripRebuilds(c *Ctx, strip *ssa.Function) {
+	r := c.R
+	recursive := false
+	eachInstr(strip, func(in ssa.Instruction) {
+		if staticCallee(in) == strip {
+			recursive = true
+		}
+	})
+	n := 0
+	for i, ret := range returnsOf(strip) {
+		rv := results(ret)
+		if len(rv) < 2 {
+			continue
+		}
+		for _, v := range phiClosure(rv[1]) {
+			mi, isMI := v.(*ssa.MakeInterface)
+			if !isMI {
+				continue
+			}
+			for _, x := range phiClosure(mi.X) {
+				al, isAl := x.(*ssa.Alloc)
+				if !isAl {
+					continue
+				}
+				n++
+				ok := recursive || loopDepth(al.Block()) > 0
+				r.Check("R12.2", FuncName(strip), fmt.Sprintf("return #%d: the links above the removed key can all be re-created (new links are made recursively or in a loop)", i+1), al.Pos(), ok,
+					"only a bounded number of links is rebuilt: with more links above the removed key, the others (the owner's other properties) are dropped")
+			}
+		}
+	}
+	if n == 0 {
+		r.Note("R12.2: strip never returns a chain headed by a link it allocated")
+	}
 }
